@@ -270,7 +270,7 @@ pub fn run(ctx: &Ctx) -> Report {
     rep.sample(|| case_json(Pc::Knight, 7, 0));
 
     // (c) proptest: random full-board occupancies of varied density
-    let cases = ctx.tier.pick(700, 20_000);
+    let cases = ctx.tier.pick(700, 40_000);
     let strat = (proptest::collection::vec(any::<u64>(), 8), proptest::collection::vec(0u8..4, 8));
     run_prop(ctx, "c06-random", cases, 4096, strat, &mut rep, |(words, dens), rep| {
         for i in 0..8 {
